@@ -19,13 +19,43 @@ theorem C03_walk (c : Ctx) (h : c.rfn = false) (s : St) (v : J) (hn : v.nodup = 
     shapeEq v (c.run s v) = true :=
   Ctx.run_shape c (Ctx.shapeOK_of_noRfn c h) s v hn
 
+theorem shapeEqList_map (f : J → J) (hf : ∀ v, v.nodup = true → shapeEq v (f v) = true) :
+    ∀ xs : List J, nodupList xs = true → shapeEqList xs (xs.map f) = true
+  | [], _ => rfl
+  | x :: xs, h => by
+    simp only [nodupList, Bool.and_eq_true] at h
+    simp only [List.map_cons, shapeEqList, Bool.and_eq_true]
+    exact ⟨hf x h.1, shapeEqList_map f hf xs h.2⟩
+
+theorem nsFieldVal_shape (c : Ctx) (k : Str) (v : J) : shapeEq v (c.nsFieldVal k v) = true := by
+  unfold Ctx.nsFieldVal
+  cases v <;> simp only [] <;> (try split) <;> simp [shapeEq, shapeEqList_refl, shapeEqKVs_refl]
+
+theorem nsDocOf_shape (c : Ctx) (v : J) (hn : v.nodup = true) : shapeEq v (c.nsDocOf v) = true := by
+  cases v with
+  | obj m =>
+    simp only [J.nodup, Bool.and_eq_true] at hn
+    simp only [Ctx.nsDocOf, shapeEq, Ctx.nsFields]
+    exact shapeEqKVs_map (fun k v => c.nsFieldVal k v) (fun k v _ => nsFieldVal_shape c k v) m hn.2
+  | _ => simp [Ctx.nsDocOf, shapeEq_refl]
+
+theorem nsVal_shape (c : Ctx) (k : Str) (v : J) (hn : v.nodup = true) : shapeEq v (c.nsVal k v) = true := by
+  unfold Ctx.nsVal
+  split
+  · exact nsDocOf_shape c v hn
+  · split
+    · cases v with
+      | arr xs =>
+        simp only [J.nodup] at hn
+        simp only [shapeEq]
+        exact shapeEqList_map _ (fun x hx => nsDocOf_shape c x hx) xs hn
+      | _ => simp [shapeEq_refl]
+    · exact nsFieldVal_shape c k v
+
 theorem redactNamespace_shape (c : Ctx) (cmd : List (Str × J)) (hn : nodupKVs cmd = true) :
     shapeEqKVs cmd (c.redactNamespace cmd) = true := by
   unfold Ctx.redactNamespace
-  apply shapeEqKVs_map (fun k v => c.nsVal k v) _ cmd hn
-  intro k v _
-  unfold Ctx.nsVal
-  cases v <;> simp only [] <;> (try split) <;> simp [shapeEq, shapeEqList_refl, shapeEqKVs_refl]
+  exact shapeEqKVs_map (fun k v => c.nsVal k v) (fun k v hv => nsVal_shape c k v hv) cmd hn
 
 theorem cmdDocA_shape (c : Ctx) (h : c.rfn = false) (v : J) (hn : v.nodup = true) :
     shapeEq v (c.cmdDocA v) = true := by
@@ -34,7 +64,7 @@ theorem cmdDocA_shape (c : Ctx) (h : c.rfn = false) (v : J) (hn : v.nodup = true
     simp only [J.nodup, Bool.and_eq_true] at hn
     have h1 : shapeEqKVs cmd (c.redactCommandA cmd) = true := by
       unfold Ctx.redactCommandA
-      exact shapeEqKVs_map (fun k v => c.run (Ctx.zoneState (lookup sInsert cmd).isSome k) v)
+      exact shapeEqKVs_map (fun k v => c.run (Ctx.zoneState (lookup sInsert cmd).isSome (lookup sBulkWrite cmd).isSome k) v)
         (fun k v hv => C03_walk c h _ v hv) cmd hn.2
     simp only [Ctx.cmdDocA, shapeEq]
     split
